@@ -537,7 +537,7 @@ fn sentpk_malformed(rng: &mut Rng, r: &mut Runner, maxops: usize) {
 // ------------------------------------------------------------------------------------------------
 // cc: NewReno / Cubic / BBR through the Controller trait
 
-pub const CC_RULE: &str = "case = one controller (reno/cubic/bbr, default config, initial mtu 1200..=6000 so that the initial window is at least two datagrams; BBR also up to 65535) driven by a history of on_sent/on_ack/on_end_acks/on_congestion_event(persistent?, ecn?)/on_spurious_congestion_event/on_mtu_update with monotone timestamps (steps 0 ns .. 100 s, boundary-biased), acks of previously sent packets, byte counts from 0 to 2^64-1 for reno/cubic (overflow panics are modelled) and up to 2^20 for bbr, MTU changes over the whole u16 range; window() is read after every call and must be >= 2*mtu (the property text). Float-derived values are obtained off the record (`cc peek`) and passed as observed inputs. 1 case in 8 is 'wild' (non-monotone times, arbitrary values, no oracle). Non-trivial = a congestion event took effect and the MTU changed, and cubic reached congestion avoidance / bbr left STARTUP or entered recovery";
+pub const CC_RULE: &str = "case = one controller (reno/cubic/bbr, default config, ANY initial mtu 0..=65535, boundary-biased around initial_window/2 and initial_window/4) driven by a history of on_sent/on_ack/on_end_acks/on_congestion_event(persistent?, ecn?)/on_spurious_congestion_event/on_mtu_update with monotone timestamps (steps 0 ns .. 100 s, boundary-biased), acks of previously sent packets, byte counts from 0 to 2^64-1 for reno/cubic (overflow panics are modelled) and up to 2^20 for bbr, MTU changes over the whole u16 range; window() is read after every call and must be >= 2*mtu (the property text). Float-derived values are obtained off the record (`cc peek`) and passed as observed inputs. 1 case in 8 is 'wild' (non-monotone times, arbitrary values, no oracle). Non-trivial = a congestion event took effect and the MTU changed, and cubic reached congestion avoidance / bbr left STARTUP or entered recovery";
 
 fn peek_obs(r: &mut Runner, line: &str, bbr: bool) -> String {
     let rest = line.strip_prefix("cc ").unwrap();
@@ -681,13 +681,15 @@ pub fn cc(rng: &mut Rng, r: &mut Runner, maxops: usize) {
     let kind = *rng.pick(&["reno", "cubic", "cubic", "bbr", "bbr", "bbr"]);
     let bbr = kind == "bbr";
     let wild = rng.chance(1, 8);
-    let mtu0 = if wild {
-        rng.below(65536)
-    } else if bbr && rng.chance(1, 4) {
-        rng.range(1200, 65535)
-    } else {
-        let x = rng.range(1200, 6000);
-        *rng.pick(&[1200, 1200, 1280, 1452, 1500, 6000, x])
+    // the constructors clamp the initial window to the minimum window: every initial MTU is fair game
+    let mtu0 = match rng.below(6) {
+        0 => rng.below(65536),
+        1 => *rng.pick(&[5999, 6000, 6001, 59999, 60000, 60001, 65535, 0, 1]),
+        2 => rng.range(6000, 65535),
+        _ => {
+            let x = rng.range(1200, 6000);
+            *rng.pick(&[1200, 1200, 1280, 1452, 1500, 9000, x])
+        }
     };
     let mut o = CcOracle { kind, mtu: mtu0, raised_in_recovery: false, enabled: !wild };
     let mut state = r.op(&format!("cc new {kind} {mtu0}"));
